@@ -1284,11 +1284,11 @@ Qed.
 Print Assumptions q_c09_paused_not_quiescent.
 
 (* ================================================================== *)
-(* 13. What is NOT proved                                               *)
+(* 13. The drain statement (PROVED in Proofs/Stream_drain.v: eager_drain)  *)
 (* ================================================================== *)
 
-(* Liveness.  The theorems above say what holds ONCE the tunnel is quiescent; they do
-   not say that it becomes quiescent.  The missing half of C01 "eventually delivered",
+(* Liveness.  The theorems above say what holds ONCE the tunnel is quiescent; that it becomes
+   quiescent is the statement below, proved in Proofs/Stream_drain.v (theorem eager_drain).  The missing half of C01 "eventually delivered",
    C02 "no state reachable under a fair schedule is stuck" and C09 "every such request is
    eventually answered" is the following drain statement: from every reachable state the
    eager environment (every recv answers EAGAIN — nothing more to deliver —, every send accepts
